@@ -84,6 +84,22 @@ theorem C07_ski_roundtrip (k : Bytes) (hk : k.length < 2 ^ 64) : decSki (tOctet 
   rw [show tOctet k = Tlv.prim 0x04 k from rfl, decodeDer_enc _ (wf_prim 0x04 k ⟨by decide, by decide⟩ hk)]
   rfl
 
+/-- AuthorityKeyIdentifier with an explicit identifier: `[0]` keyIdentifier carries exactly the given octets
+    (an empty identifier is the empty SEQUENCE) -/
+theorem C07_aki_roundtrip (critical : Bool) (k : Bytes) (hk : k.length + 20 < 2 ^ 64) :
+    decAki (Cert.newAuthorityKeyIdentifierFromStruct critical k).value = some (if k.isEmpty then none else some k) := by
+  unfold Cert.newAuthorityKeyIdentifierFromStruct Cert.authorityKeyIdentifierTlv decAki
+  by_cases h : k.isEmpty = true
+  · simp only [h, if_true]
+    rw [decodeDer_enc _ (by decide)]; rfl
+  · simp only [h, if_false, Bool.false_eq_true]
+    have hp := prim_enc_length 0x80 k (by omega)
+    have hwf : (tSeq [Tlv.prim 0x80 k]).wf = true := by
+      refine wf_cons _ _ ⟨by decide, by decide⟩ (by simp only [encList, List.append_nil]; omega) ?_
+      simp only [wfList, Bool.and_true]
+      exact wf_prim _ _ ⟨by decide, by decide⟩ (by omega)
+    rw [decodeDer_enc _ hwf]; rfl
+
 /-- **OBJECT IDENTIFIER round trip** (used by every extension that carries OIDs): for every OID Go's
     marshaller accepts, with arcs below 2^63, the content octets decode to the same arcs -/
 theorem C07_oid_roundtrip (arcs : List Nat) (hv : oidValid arcs = true) (hb : ∀ a ∈ arcs, a < 2 ^ 63) :
